@@ -892,7 +892,18 @@ func TestVerifC18(t *testing.T) {
 			}
 		}
 		h.Op("wts %s", vInts(wout[:]))
-		h.Tag(fmt.Sprintf("weights:%d,%d,%d", c.wts[0], c.wts[1], c.wts[2]))
+		switch {
+		case c.wts == [3]int64{1, 1, 1}:
+			h.Tag("weights:1,1,1")
+		case c.wts == [3]int64{-1, -1, -1}:
+			h.Tag("weights:nil-map")
+		case c.wts[0] < 0 || c.wts[1] < 0 || c.wts[2] < 0:
+			h.Tag("weights:key-missing")
+		case c.wts[0] == 0 || c.wts[1] == 0 || c.wts[2] == 0:
+			h.Tag("weights:random-with-zero")
+		default:
+			h.Tag("weights:random")
+		}
 		if c.abn > 0 {
 			pool.AnomalyCondition = &deschedulerconfig.LoadAnomalyCondition{Timeout: metav1.Duration{Duration: time.Hour},
 				ConsecutiveAbnormalities: uint32(c.abn), ConsecutiveNormalities: uint32(c.norm)}
@@ -1143,7 +1154,7 @@ func TestVerifC18(t *testing.T) {
 				}
 				h.Tag(fmt.Sprintf("node:rawkind:%d", nd.rawKind))
 				if nd.rawKind == 1 {
-					h.Tag(fmt.Sprintf("node:amplified:x%d/2:cpu=%d,mem=%d,pods=%d", nd.ampNum, vB(nd.ampDims[0]), vB(nd.ampDims[1]), vB(nd.ampDims[2])))
+					h.Tag(fmt.Sprintf("node:amplified:x%d/2:cpu=%d,mem=%d,pods=%d,annotation-names-pods=%d", nd.ampNum, vB(nd.ampDims[0]), vB(nd.ampDims[1]), vB(nd.ampDims[2]), vB(!nd.noPodsInAnno)))
 				}
 			}
 			for _, nd := range inPool {
@@ -1394,7 +1405,12 @@ func TestVerifC18(t *testing.T) {
 	}
 	h.Close("one node pool (static or deviation thresholds on cpu/memory/pods, node and prod level, optional anomaly condition, NumberOfNodes, " +
 		"node selector, dry-run) and a history of 1-8 balance rounds over 1-8 nodes with 0-5 pods each (sticky load tendencies, missing/expired/nil " +
-		"NodeMetrics, pods without metrics, filter and evictor answers scripted, NodeFit per round); non-trivial = at least one Evict call in the history; distinct by op lines")
+		"NodeMetrics, pods without metrics, filter and evictor answers scripted, NodeFit per round); pods in three namespaces with names repeated across " +
+		"namespaces on one node (prod + non-prod and same-class pairs), NodeMetric entries in shuffled order incl. duplicate entries and entries without an " +
+		"assigned pod; amplified nodes (status.allocatable = raw x 1/1.5/2/3 on cpu, cpu+memory or all resources; annotation naming all resources or cpu+memory " +
+		"only; unparsable annotation); ResourceWeights 0-3 / partial / nil; priorities with ties, deletion / eviction cost annotations (valid, rejected); " +
+		"1/8 of the cases are a 'relapse' history (node 0 overloaded at node or prod level until drained, one recovered round, overloaded again); " +
+		"non-trivial = at least one Evict call in the history; distinct by op lines")
 }
 
 // TestVerifC18DetExhaustive: EXHAUSTIVE small scope for the anomaly gating glue.  Every sequence of a fixed length over
